@@ -560,8 +560,10 @@ def check(ctx):
                detail="" if er else "the public `errors` attribute is not applied when encoding", by=("self._encoder.errors = self.errors",))
     tsi = ctx.fn("TextStream.__post_init__", TXT)
     e1, e2 = tsi.node.args.args[1].arg, tsi.node.args.args[2].arg
-    a = ctx.sites(tsi, f"self._receive_stream = TextReceiveStream(self.transport_stream, encoding={e1}, errors={e2})")
-    b = ctx.sites(tsi, f"self._send_stream = TextSendStream(self.transport_stream, encoding={e1}, errors={e2})")
+    a = ctx.sites(tsi, f"self._receive_stream = TextReceiveStream(self.transport_stream, encoding={e1}, errors={e2})") + \
+        ctx.sites(tsi, f"self._receive_stream = TextReceiveStream(transport_stream=self.transport_stream, encoding={e1}, errors={e2})")
+    b = ctx.sites(tsi, f"self._send_stream = TextSendStream(self.transport_stream, encoding={e1}, errors={e2})") + \
+        ctx.sites(tsi, f"self._send_stream = TextSendStream(transport_stream=self.transport_stream, encoding={e1}, errors={e2})")
     ctx.ob("R16-d", tsi, "both halves of a TextStream wrap the same transport with the same encoding and error policy", len(a) == 1 and len(b) == 1,
            detail="" if a and b else "TextStream does not construct both halves with (transport_stream, encoding=encoding, errors=errors)", by=("same encoding",))
     for q, pat in (("TextStream.receive", "return await self._receive_stream.receive()"), ("TextStream.send", f"await self._send_stream.send({ctx.fn('TextStream.send', TXT).node.args.args[1].arg})")):
